@@ -820,3 +820,5 @@ Definition col_matches (d : desc) (c : sqlcol) (p : path) : bool :=
       | _ => true
       end
   end.
+
+Close Scope Z_scope.
